@@ -67,7 +67,10 @@ func c18Edits(f family) []c18Edit {
 				}},
 			)
 		case ".json":
-			edits = append(edits, c18Edit{"json:" + n, func(m map[string]string) bool { m[n] = strings.Replace(m[n], "MARK_data_2", "MARK_data_3", 1); return true }})
+			edits = append(edits, c18Edit{"json:" + n, func(m map[string]string) bool {
+				m[n] = strings.Replace(m[n], "MARK_data_2", "MARK_data_3", 1)
+				return true
+			}})
 		case ".png", ".svg", ".bin", ".txt":
 			edits = append(edits, c18Edit{"asset:" + n, func(m map[string]string) bool { m[n] = m[n] + "X"; return true }})
 		}
@@ -89,13 +92,19 @@ func c18Variants() []famVariant {
 		mk("minify", func(o *api.BuildOptions) { o.MinifyWhitespace, o.MinifySyntax, o.MinifyIdentifiers = true, true, true }),
 		mk("sourcemap-linked", func(o *api.BuildOptions) { o.Sourcemap = api.SourceMapLinked }),
 		mk("sourcemap-external", func(o *api.BuildOptions) { o.Sourcemap = api.SourceMapExternal }),
-		mk("sourcemap-linked-nocontent", func(o *api.BuildOptions) { o.Sourcemap = api.SourceMapLinked; o.SourcesContent = api.SourcesContentExclude }),
+		mk("sourcemap-linked-nocontent", func(o *api.BuildOptions) {
+			o.Sourcemap = api.SourceMapLinked
+			o.SourcesContent = api.SourcesContentExclude
+		}),
 		mk("legal-linked", func(o *api.BuildOptions) { o.LegalComments = api.LegalCommentsLinked }),
 		mk("legal-external", func(o *api.BuildOptions) { o.LegalComments = api.LegalCommentsExternal }),
 		mk("legal-eof", func(o *api.BuildOptions) { o.LegalComments = api.LegalCommentsEndOfFile }),
 		mk("public-path-a", func(o *api.BuildOptions) { o.PublicPath = "https://a.example.com/" }),
 		mk("public-path-b", func(o *api.BuildOptions) { o.PublicPath = "https://b.example.com/assets/" }),
-		mk("legal-linked+map", func(o *api.BuildOptions) { o.LegalComments = api.LegalCommentsLinked; o.Sourcemap = api.SourceMapLinked }),
+		mk("legal-linked+map", func(o *api.BuildOptions) {
+			o.LegalComments = api.LegalCommentsLinked
+			o.Sourcemap = api.SourceMapLinked
+		}),
 		mk("names-short", func(o *api.BuildOptions) { o.ChunkNames = "[hash]"; o.AssetNames = "[hash]" }),
 	}
 }
